@@ -481,3 +481,24 @@ Proof. vm_compute. reflexivity. Qed.
 (* before _initialize every subscript fails (the constructor creates empty dicts): ConnDgram.v's [d_init] site *)
 Example ctor_tables_empty : need TCryptos EPOCH_HANDSHAKE ctor_tabs = EKey TCryptos EPOCH_HANDSHAKE.
 Proof. reflexivity. Qed.
+
+(* ---------- the table layer is conservative over the frame layer: whenever it lets a frame through, ConnRecv.frame_step
+   handles the same frame with the same resulting snapshot and rest; whenever it stops, so does ConnRecv.frame_step *)
+Lemma eframe_step_conservative_pf : forall body patched s st epoch u b,
+  match eframe_step body patched s st epoch u b with
+  | ESNext _ st' rest => exists c, frame_step patched st epoch b = SNext st' rest c
+  | ESStop _ => match frame_step patched st epoch b with SNext _ _ _ => False | _ => True end
+  | ESKey _ _ => True
+  end.
+Proof.
+  intros body patched s st epoch u b. unfold eframe_step, frame_step.
+  destruct (pull_uint_var b) as [ft b'|]; [|exact I].
+  destruct (lookup_frame ft frame_table) as [[h epochs]|]; [|exact I].
+  destruct (negb (zmem epoch epochs)); [exact I|].
+  destruct (run_handler patched h st epoch ft b') as [st' rest| |lg code ft'|st' rest|lg k] eqn:R; cbn [pre_log].
+  - destruct (handler_tables body h s epoch u (HOk st' rest)); [eexists; reflexivity|exact I].
+  - exact I.
+  - destruct lg; [|exact I]. destruct (handler_tables body h s epoch u (HErr true code ft')); exact I.
+  - destruct (handler_tables body h s epoch u (HFin st' rest)); [eexists; reflexivity|exact I].
+  - destruct lg; [|exact I]. destruct (handler_tables body h s epoch u (HExn true k)); exact I.
+Qed.
